@@ -300,10 +300,7 @@ func (ex *Exec) jsonEncode(fr *frame, v Value, T types.Type) (Value, error) {
 		case U.Info()&types.IsBoolean != 0:
 			return Iface{T: tBool, V: v}, nil
 		case U.Info()&types.IsString != 0:
-			if js, ok := v.(*JSONStr); ok {
-				_ = js
-				ex.inconclusive("json.Marshal of a string holding a JSON token")
-			}
+			// (a string that holds the text of a JSON token stays that token)
 			return Iface{T: tString, V: v}, nil
 		case U.Info()&types.IsInteger != 0:
 			switch x := v.(type) {
